@@ -66,3 +66,24 @@ func (sm *ShardManager) VerifLoadedShardDirs() []string {
 
 // VerifCurateFailedPoints exposes curateFailedPoints.
 var VerifCurateFailedPoints = curateFailedPoints
+
+// VerifUnloadAll closes every loaded shard of the manager (as collection
+// deletion does, without removing anything from disk) so that a harness can
+// stop a node without waiting for the idle timers.
+func (sm *ShardManager) VerifUnloadAll() {
+	sm.shardLock.Lock()
+	defer sm.shardLock.Unlock()
+	for dir, ls := range sm.shardStore {
+		ls.mu.Lock()
+		if ls.shard != nil {
+			select {
+			case ls.doneCh <- true:
+			default:
+			}
+			ls.shard.Close()
+			ls.shard = nil
+		}
+		ls.mu.Unlock()
+		delete(sm.shardStore, dir)
+	}
+}
